@@ -25,6 +25,7 @@ RULE = (
 )
 ASSUMPTIONS = [
     "not asserted: leading zeros / '+' on integers, exponents in decimals, second=60, offsets outside -12..+14, the [-:TZ] zone-name-only offset form",
+    "enumeration tokens: the tables of the tree the machinery was built against (pbt/data/enum_tokens.json) are the reference; tokens added since are swept too, tokens removed since still count as valid (re-generate the file after a deliberate removal)",
     "fixed-scale decimals: only the quantum and |value - text| <= quantum/2 are asserted (rounding mode is not)",
 ]
 
@@ -139,8 +140,14 @@ def _token_worker(job):
             if kind not in ("elem", "listelem") or not isinstance(tt, Types.OneOf):
                 continue
             toks = [x for x in tt.valid if isinstance(x, str)]
+            # the tokens of the tree this machinery was built against are the reference set: one that has dropped out of
+            # the running library's table is still a token of valid documents
+            lost = [x for x in _snapshot().get(name, {}).get(attr, []) if x not in toks]
+            if lost:
+                s.label("tokens of the baseline missing from the running library's table", len(lost))
+            toks = toks + lost
             for i, tok in enumerate(toks):
-                if i % stride and i != len(toks) - 1:
+                if i % stride and i != len(toks) - 1 and tok not in lost:
                     continue
                 try:
                     d = M.minimal(cls, with_attr=attr) if kind == "elem" else M.minimal(cls, with_member=["tok", tok])
@@ -158,6 +165,19 @@ def _token_worker(job):
                     s.fail("token-sweep/" + k, case, f"{name}.{attr}={tok!r}: {dd}")
         s.label("classes swept for tokens")
     return s
+
+
+_SNAP = []
+
+
+def _snapshot():
+    if not _SNAP:
+        import json
+        from pathlib import Path
+
+        p = Path(__file__).resolve().parents[1] / "data" / "enum_tokens.json"
+        _SNAP.append(json.loads(p.read_text()) if p.exists() else {})
+    return _SNAP[0]
 
 
 def _to_lex(desc):
